@@ -148,7 +148,9 @@ func merge(
 		case hasNewValue && hasOldValue:
 			// merge and compress
 			encoder.AppendTime(bit.One)
-			encoder.AppendValue(math.Float64bits(fieldType.AggType().Aggregate(newValue, oldValue)))
+			// the compressed value was written before the value of the current window: keep the write order
+			// (it matters for first/last fields)
+			encoder.AppendValue(math.Float64bits(fieldType.AggType().Aggregate(oldValue, newValue)))
 		case !hasNewValue && hasOldValue:
 			// compress old value
 			encoder.AppendTime(bit.One)
